@@ -213,6 +213,11 @@ def posteriorError (e : Estimator α) (score : α) : Option α :=
     some (lower + delta * linear)
   | _, _ => none
 
+/-- a session: estimators queried one after the other (op `kdeseq`). The model keeps NO state between
+    queries: the k-th answer is `posteriorError` of the k-th (estimator, score) pair and nothing else. -/
+def runQueries (steps : List (Estimator α × α)) : List (Option α) :=
+  steps.map fun p => posteriorError p.1 p.2
+
 /-- what `score_psms` stores: `kde.posterior_error(score).log10() as f32` — the `log10` is taken on the
     `f64` value and only then cast to `f32` (`cast`) — replaced by `-324.0` when that is infinite -/
 def reported {β : Type} (log10 : α → α) (cast : α → β) (isInf : β → Bool) (floorVal : β) (pep : α) : β :=
